@@ -25,8 +25,10 @@ import ZCV.Lemmas.LogTemplateAccept
   `C20_logger_setup_any`, `C20_configure_loggers`
 * classic (`%`) log formats, about the model `ZCV/Model/LogFormat.lean` (CPython's `str % mapping`, the sample record of
   `FormatterFactory`, logging's validation pattern; compared by hand with the interpreter and the real loader, driver op
-  still to be added): `C20_classic_accepts_iff`, `C20_classic_format_safe` (and `_for`, `_wide`, `_typed`),
-  `C20_classic_formatter_builds`, `C20_classic_accepted_items`, `C20_classic_accepts_iff_of_field`, `C20_classic_char_needs_range`, `C20_classic_configured_safe`
+  still to be added): `C20_classic_accepts_iff`, `C20_classic_format_safe` (and `_for`, `_keyed`, `_wide`, `_typed`),
+  `C20_classic_formatter_builds`, `C20_classic_accepted_items`, `C20_classic_accepts_iff_of_field`, `C20_classic_char_needs_range`,
+  `C20_classic_str_limit_needed`, `C20_classic_bare_needs_printable` (the 4300-digit limit of int → decimal text of
+  Python 3.12, also through a bare `%s`), `C20_classic_configured_safe`
 * `template` / `safe-template` log formats (`string.Template`), about the model `ZCV/Model/LogTemplate.lean` (compared with
   the running `FormatterFactory`, `string.Template` and the real loader; driver op `logtpl`): `C20_template_scan_roundtrip`,
   `C20_template_scan_spec`, `C20_template_known_names`, `C20_template_accepts_iff`, `C20_template_format_safe` (and `_for`), `C20_template_formatter_builds`,
@@ -395,53 +397,72 @@ open ZCV.LogFormat ZCV.LogFormatSpec ZCV.LogFormatLemmas in
 theorem C20_classic_accepts_iff (fmt : Str) :
     accepts fmt = true ↔
       ItemsAccepted true (parse (effective fmt)) ∧ validatorSearch (effective fmt) = true := by
-  rw [lf_accepts_iff]
-  unfold formatRun
+  rw [lf_accepts_iff, lf_formatRun_sample]
   exact and_congr (lf_items_sample true _) Iff.rfl
 
 open ZCV.LogFormat ZCV.LogFormatSpec ZCV.LogFormatLemmas in
 /-- THE PROPERTY, as the formatter meets it.  A classic format accepted at load time (arbitrary-fields off) never raises
     when the formatter built from it formats an ordinary record: every attribute present — `asctime` only if the format
     uses the time, as `logging.Formatter.format` sets it only then — strings where the logging package puts strings,
-    level and line numbers in `0 ≤ n < 0x110000`, thread and process ids in `0 ≤ n < 2^64`, finite time stamps. -/
-theorem C20_classic_format_safe_for (fmt : Str) (h : accepts fmt = true) (r : Dict) (hr : OrdinaryFor fmt r) :
-    formatSafe fmt r = true := by
+    level and line numbers in `0 ≤ n < 0x110000`, thread and process ids in `0 ≤ n < 2^64`, finite time stamps, and no
+    int of more than 4300 digits among the object-valued attributes (`args`, `exc_info`, …).  If the format has a
+    specifier without `(key)` (a leading `%s`, which prints the whole attribute dictionary), `repr()` must work on every
+    attribute of the record, also those the logging package does not know (`BareOk`; needed:
+    `C20_classic_bare_needs_printable`). -/
+theorem C20_classic_format_safe_for (fmt : Str) (h : accepts fmt = true) (r : Dict) (hr : OrdinaryFor fmt r)
+    (hb : BareOk fmt r) : formatSafe fmt r = true := by
   rw [lf_formatSafe_iff]
   have ha := ((C20_classic_accepts_iff fmt).mp h).1
-  refine lf_items_safe Kind.admitsWide (fun _ => True) lf_classCheck_admitsWide r _ ?_
+  obtain ⟨ok, hok, he⟩ := lf_formatRun_eq (effective fmt) r
+  rw [he]
+  refine lf_items_safe Kind.admitsWide (fun _ => True) lf_classCheck_admitsWide r _ ?_ ok (fun hx => hok.mpr (hb hx))
     true ha (fun it _ => lf_itemGood_true it)
   intro k kind hm hu
   obtain ⟨v, hv, hadm⟩ := lf_recordFor_used Kind.admits fmt r hr k kind hm hu
   exact ⟨v, hv, lf_admits_wide kind v hadm⟩
 
 open ZCV.LogFormat ZCV.LogFormatSpec ZCV.LogFormatLemmas in
-/-- THE PROPERTY: `accepts fmt → ∀ ordinary record r, formatSafe fmt r` (all attributes present, `asctime` included). -/
-theorem C20_classic_format_safe (fmt : Str) (h : accepts fmt = true) (r : Dict) (hr : Ordinary r) :
+/-- THE PROPERTY: `accepts fmt → ∀ ordinary record r, formatSafe fmt r` (all attributes present, `asctime` included;
+    with a leading bare `%s` in the format, every attribute of the record must print: `BareOk`). -/
+theorem C20_classic_format_safe (fmt : Str) (h : accepts fmt = true) (r : Dict) (hr : Ordinary r) (hb : BareOk fmt r) :
     formatSafe fmt r = true :=
-  C20_classic_format_safe_for fmt h r (fun k kind hm _ => hr k kind hm)
+  C20_classic_format_safe_for fmt h r (fun k kind hm _ => hr k kind hm) hb
+
+open ZCV.LogFormat ZCV.LogFormatSpec ZCV.LogFormatLemmas in
+/-- THE PROPERTY for the formats one writes — every specifier has a `(key)`: accepted at load time → no ordinary record
+    makes the formatter raise, whatever other attributes the record carries. -/
+theorem C20_classic_format_safe_keyed (fmt : Str) (h : accepts fmt = true)
+    (hk : ∀ it ∈ parse (effective fmt), isBare it = false) (r : Dict) (hr : Ordinary r) :
+    formatSafe fmt r = true :=
+  C20_classic_format_safe fmt h r hr (fun ⟨it, hm, hbare⟩ => by rw [hk it hm] at hbare; cases hbare)
 
 open ZCV.LogFormat ZCV.LogFormatSpec ZCV.LogFormatLemmas in
 /-- The same under the weakest hypothesis on the record: the string-valued and object-valued attributes may hold
-    anything (only `str()` / `repr()` are ever applied to them), thread and process ids may be any int that converts to
-    `float`; what is needed is: level and line numbers are ints in `0 ≤ n < 0x110000`, time stamps are finite floats
-    (and `asctime` is there if the format uses the time). -/
-theorem C20_classic_format_safe_wide (fmt : Str) (h : accepts fmt = true) (r : Dict) (hr : OrdinaryWide fmt r) :
-    formatSafe fmt r = true := by
+    anything that prints — anything but an int of more than 4300 decimal digits, on which `str()` / `repr()` raise
+    ValueError in Python 3.12 (needed: `C20_classic_str_limit_needed`); thread and process ids may be any int that
+    converts to `float` (such an int has at most 309 digits); what else is needed is: level and line numbers are ints in
+    `0 ≤ n < 0x110000`, time stamps are finite floats (and `asctime` is there if the format uses the time). -/
+theorem C20_classic_format_safe_wide (fmt : Str) (h : accepts fmt = true) (r : Dict) (hr : OrdinaryWide fmt r)
+    (hb : BareOk fmt r) : formatSafe fmt r = true := by
   rw [lf_formatSafe_iff]
   have ha := ((C20_classic_accepts_iff fmt).mp h).1
+  obtain ⟨ok, hok, he⟩ := lf_formatRun_eq (effective fmt) r
+  rw [he]
   exact lf_items_safe Kind.admitsWide (fun _ => True) lf_classCheck_admitsWide r _
-    (lf_recordFor_used Kind.admitsWide fmt r hr) true ha (fun it _ => lf_itemGood_true it)
+    (lf_recordFor_used Kind.admitsWide fmt r hr) ok (fun hx => hok.mpr (hb hx)) true ha (fun it _ => lf_itemGood_true it)
 
 open ZCV.LogFormat ZCV.LogFormatSpec ZCV.LogFormatLemmas in
 /-- An accepted format that does not use `%c` is safe on every record with the right TYPES: level and line numbers
     may then be any ints (that convert to `float`), not only code points. -/
 theorem C20_classic_format_safe_typed (fmt : Str) (h : accepts fmt = true)
-    (hc : ∀ it ∈ parse (effective fmt), noCharConv it) (r : Dict) (hr : OrdinaryTyped fmt r) :
+    (hc : ∀ it ∈ parse (effective fmt), noCharConv it) (r : Dict) (hr : OrdinaryTyped fmt r) (hb : BareOk fmt r) :
     formatSafe fmt r = true := by
   rw [lf_formatSafe_iff]
   have ha := ((C20_classic_accepts_iff fmt).mp h).1
+  obtain ⟨ok, hok, he⟩ := lf_formatRun_eq (effective fmt) r
+  rw [he]
   refine lf_items_safe Kind.admitsTyped (· ≠ .char) lf_classCheck_admitsTyped r _
-    (lf_recordFor_used Kind.admitsTyped fmt r hr) true ha (fun it hm => ?_)
+    (lf_recordFor_used Kind.admitsTyped fmt r hr) ok (fun hx => hok.mpr (hb hx)) true ha (fun it hm => ?_)
   have := hc it hm
   cases it with
   | field key fl w p lm conv =>
@@ -458,7 +479,7 @@ open ZCV.LogFormat in
     (= `logging.Formatter(fmt, datefmt, style='%')`, which validates the format) does not raise. -/
 theorem C20_classic_formatter_builds (fmt : Str) (h : accepts fmt = true) : buildFormatter fmt = .ok () := by
   unfold accepts loadCheck at h
-  cases hr : formatRun (effective fmt) sampleDict with
+  cases hr : formatRunTable (effective fmt) sampleVars with
   | error e => simp [hr] at h
   | ok u =>
     simp only [hr] at h
@@ -483,27 +504,102 @@ theorem C20_classic_accepts_iff_of_field (fmt : Str) (hf : ∃ it ∈ parse (eff
   rw [C20_classic_accepts_iff]
   exact ⟨fun h => h.1, fun h => ⟨h, lf_validatorSearch_of_plainKeyed _ h hf⟩⟩
 
-open ZCV.LogFormat in
+open ZCV.LogFormat ZCV.LogFormatLemmas in
 /-- The range in `C20_classic_format_safe` is needed: `%(lineno)c` IS accepted at load time (the sample line number is
     1), and formatting raises (OverflowError) for every record whose line number is not a code point. -/
 theorem C20_classic_char_needs_range (n : Int) (hn : n < 0 ∨ 0x110000 ≤ n) (r : Dict)
     (hr : r "lineno".toList = some (.int n)) :
-    accepts "%(lineno)c".toList = true ∧ formatSafe "%(lineno)c".toList r = false := by
-  refine ⟨by decide +kernel, ?_⟩
+    accepts "%(lineno)c".toList = true ∧ formatSafe "%(lineno)c".toList r = false ∧
+    formatRun "%(lineno)c".toList r = .error .overflowError := by
   have hp : parse (effective "%(lineno)c".toList) =
       [.field (some "lineno".toList) [] .absent .absent none (some 'c')] := by decide +kernel
   have hc : classOf 'c' = some .char := by decide +kernel
   have hm : ¬ (0 ≤ n ∧ n ≤ maxUnicode) := by simp only [maxUnicode]; omega
-  unfold formatSafe formatRun
-  rw [hp]
-  simp only [runItems, evalItem, hr, evalWidth, evalPrec, convCheck, hc, classCheck, hm, if_false]
+  have hrun : formatRun (effective "%(lineno)c".toList) r = .error .overflowError := by
+    obtain ⟨ok, _, he⟩ := lf_formatRun_eq (effective "%(lineno)c".toList) r
+    rw [he, hp]
+    simp only [runItems, evalItem, hr, evalWidth, evalPrec, argCheck, convCheck, hc, classCheck, hm, if_false]
+  refine ⟨by decide +kernel, ?_, hrun⟩
+  unfold formatSafe
+  rw [hrun]
+
+open ZCV.LogFormat ZCV.LogFormatLemmas in
+/-- The 4300-digit bound in `C20_classic_format_safe_wide` is needed (the classic mirror of
+    `C20_template_str_limit_needed`): `%(process)d` and `%(process)s` ARE accepted at load time (the sample process id is
+    4000000), and formatting raises ValueError ("Exceeds the limit (4300 digits) for integer string conversion") for
+    every record whose `process` is an int of more than 4300 decimal digits, of either sign — while `%(process)x` works
+    on every int: the hexadecimal, octal conversions are not limited. -/
+theorem C20_classic_str_limit_needed (n : Int) (hn : 10 ^ 4300 ≤ n.natAbs) (r : Dict)
+    (hr : r "process".toList = some (.int n)) :
+    accepts "%(process)d".toList = true ∧ accepts "%(process)s".toList = true ∧ accepts "%(process)x".toList = true ∧
+    formatRun "%(process)d".toList r = .error .valueError ∧ formatSafe "%(process)d".toList r = false ∧
+    formatRun "%(process)s".toList r = .error .valueError ∧ formatSafe "%(process)s".toList r = false ∧
+    formatSafe "%(process)x".toList r = true := by
+  have hpd : parse (effective "%(process)d".toList) =
+      [.field (some "process".toList) [] .absent .absent none (some 'd')] := by decide +kernel
+  have hps : parse (effective "%(process)s".toList) =
+      [.field (some "process".toList) [] .absent .absent none (some 's')] := by decide +kernel
+  have hpx : parse (effective "%(process)x".toList) =
+      [.field (some "process".toList) [] .absent .absent none (some 'x')] := by decide +kernel
+  have hcd : classOf 'd' = some .dec := by decide +kernel
+  have hcs : classOf 's' = some .text := by decide +kernel
+  have hcx : classOf 'x' = some .radix := by decide +kernel
+  have hs : strCheck (.int n) = .error .valueError := by
+    have h1 : strCheck (.int n) = if n.natAbs < 10 ^ intMaxStrDigits then .ok () else .error .valueError := rfl
+    have h2 : intMaxStrDigits = 4300 := rfl
+    rw [h1, h2, if_neg (by omega)]
+  have hd : formatRun (effective "%(process)d".toList) r = .error .valueError := by
+    obtain ⟨ok, _, he⟩ := lf_formatRun_eq (effective "%(process)d".toList) r
+    rw [he, hpd]
+    simp only [runItems, evalItem, hr, evalWidth, evalPrec, argCheck, convCheck, hcd, classCheck, decCheck, precCheck, hs]
+  have hst : formatRun (effective "%(process)s".toList) r = .error .valueError := by
+    obtain ⟨ok, _, he⟩ := lf_formatRun_eq (effective "%(process)s".toList) r
+    rw [he, hps]
+    simp only [runItems, evalItem, hr, evalWidth, evalPrec, argCheck, convCheck, hcs, classCheck, hs]
+  have hx : formatRun (effective "%(process)x".toList) r = .ok () := by
+    obtain ⟨ok, _, he⟩ := lf_formatRun_eq (effective "%(process)x".toList) r
+    rw [he, hpx]
+    simp only [runItems, evalItem, hr, evalWidth, evalPrec, argCheck, convCheck, hcx, classCheck, precCheck]
+  refine ⟨by decide +kernel, by decide +kernel, by decide +kernel, hd, ?_, hst, ?_, ?_⟩
+  · unfold formatSafe; rw [hd]
+  · unfold formatSafe; rw [hst]
+  · unfold formatSafe; rw [hx]
+
+open ZCV.LogFormat ZCV.LogFormatSpec ZCV.LogFormatLemmas in
+/-- The hypothesis `BareOk` of `C20_classic_format_safe` is needed: `%s %(message)s` IS accepted at load time (the
+    leading `%s` prints the whole attribute dictionary of the record), and formatting raises ValueError for every
+    record that carries, under ANY name (say through `extra=`), an int of more than 4300 decimal digits. -/
+theorem C20_classic_bare_needs_printable (r : Dict) (k : Str) (n : Int) (hr : r k = some (.int n))
+    (hn : 10 ^ 4300 ≤ n.natAbs) :
+    accepts "%s %(message)s".toList = true ∧ formatRun "%s %(message)s".toList r = .error .valueError ∧
+    formatSafe "%s %(message)s".toList r = false := by
+  have hp : parse (effective "%s %(message)s".toList) =
+      [.field none [] .absent .absent none (some 's'), .lit " ".toList,
+       .field (some "message".toList) [] .absent .absent none (some 's')] := by decide +kernel
+  have hcs : classOf 's' = some .text := by decide +kernel
+  have hrun : formatRun (effective "%s %(message)s".toList) r = .error .valueError := by
+    obtain ⟨ok, hok, he⟩ := lf_formatRun_eq (effective "%s %(message)s".toList) r
+    have hf : ok = false := by
+      cases ok with
+      | false => rfl
+      | true =>
+        have hpr : Prints (.int n) := hok.mp rfl k _ hr
+        simp only [Prints] at hpr
+        omega
+    subst hf
+    rw [he, hp]
+    simp only [runItems, evalItem, stOf, if_true, evalWidth, evalPrec, argCheck, convCheck, hcs, classCheck, strCheck,
+      Bool.false_eq_true, if_false]
+  refine ⟨by decide +kernel, hrun, ?_⟩
+  unfold formatSafe
+  rw [hrun]
 
 open ZCV.LogFormat ZCV.LogFormatSpec in
 /-- From the configuration text: the `escaped_string` datatype turns `\n \t \b \f \r` into control characters, the
     result is what is checked at load time and what the formatter uses. -/
-theorem C20_classic_configured_safe (raw : Str) (h : acceptsConfigured raw = true) (r : Dict) (hr : Ordinary r) :
-    formatSafe (ctrlCharInsert raw) r = true :=
-  C20_classic_format_safe _ h r hr
+theorem C20_classic_configured_safe (raw : Str) (h : acceptsConfigured raw = true) (r : Dict) (hr : Ordinary r)
+    (hb : BareOk (ctrlCharInsert raw) r) : formatSafe (ctrlCharInsert raw) r = true :=
+  C20_classic_format_safe _ h r hr hb
 
 section ClassicExamples
 open ZCV.LogFormat ZCV.LogFormatSpec ZCV.LogFormatLemmas
@@ -551,6 +647,30 @@ example : OrdinaryFor "%(levelname)s %(message)s".toList (lookup (exRecordTable.
   ⟨lf_ordinaryFor_of_table _ _ (by decide +kernel), by decide +kernel⟩
 /-- `%(name)c` would be fine on this record (one-letter logger name) but is refused: the sample name is longer -/
 example : formatSafe "%(name)c".toList (lookup exRecordTable) = true ∧ accepts "%(name)c".toList = false := by
+  decide +kernel
+/-- the hypothesis `BareOk`: nothing to show for a format whose specifiers all have a key; for a format with a leading
+    bare `%s` the example record prints, and formatting works (`formatSafeTable` is the executable form of `formatSafe`
+    for a record given as a table) -/
+example (r : Dict) : BareOk "%(levelname)s %(message)s".toList r :=
+  fun ⟨it, hm, hb⟩ => by
+    have : ∀ it ∈ parse (effective "%(levelname)s %(message)s".toList), isBare it = false := by decide +kernel
+    rw [this it hm] at hb; cases hb
+example : BareOk "%s %(message)s".toList (lookup exRecordTable) ∧ accepts "%s %(message)s".toList = true ∧
+    formatSafe "%s %(message)s".toList (lookup exRecordTable) = true :=
+  ⟨fun _ => lf_printable_of_table _ (by decide +kernel), by decide +kernel, by rw [lf_formatSafe_table]; decide +kernel⟩
+/-- the 4300-digit limit, at its boundary: `10^4300 - 1` (4300 digits) and its negative are converted by `%d` and `%s`,
+    `10^4300` (4301 digits) is refused with ValueError, `%x` takes it; the hypotheses of `C20_classic_str_limit_needed`
+    and `C20_classic_bare_needs_printable` hold for it -/
+example : formatRunTable "%(process)d".toList [("process".toList, .int (10 ^ 4300 - 1))] = .ok () ∧
+    formatRunTable "%(process)5.3s".toList [("process".toList, .int (-(10 ^ 4300 - 1)))] = .ok () ∧
+    formatRunTable "%(process)d".toList [("process".toList, .int (10 ^ 4300))] = .error .valueError ∧
+    formatRunTable "%(process)r".toList [("process".toList, .int (-(10 ^ 4300)))] = .error .valueError ∧
+    formatRunTable "%(process)#x".toList [("process".toList, .int (10 ^ 4300))] = .ok () ∧
+    formatRunTable "%(process)f".toList [("process".toList, .int (10 ^ 4300))] = .error .overflowError ∧
+    formatRunTable "%(process).2147483645d".toList [("process".toList, .int (10 ^ 4300))] = .error .overflowError ∧
+    formatRunTable "%s".toList [("x".toList, .int (10 ^ 4300))] = .error .valueError ∧
+    formatRunTable "%d".toList [("x".toList, .int (10 ^ 4300))] = .error .typeError := by decide +kernel
+example : (10 : Nat) ^ 4300 ≤ ((10 : Int) ^ 4300).natAbs ∧ (10 : Nat) ^ 4300 ≤ (-(10 : Int) ^ 4300).natAbs := by
   decide +kernel
 
 end ClassicExamples
